@@ -68,6 +68,34 @@ deriving Repr, DecidableEq
 def Book.apply (_ : Book) (idx : Nat) (applied appended : Int) : Book :=
   { fsmIdx := idx, fsmUpdate := applied, appendedAt := some appended }
 
+/-- `fsmRestore` (snapshot install): only the index moves (`s.fsmIdx.Store(li)`); the two
+times keep describing the last entry that was applied one by one -/
+def Book.restore (b : Book) (li : Nat) : Book := { b with fsmIdx := li }
+
+/-- `Store.Open` on the fast-restart path: a fresh Store whose `fsmIdx` is the snapshot index
+and whose times are unset -/
+def Book.fastOpen (_ : Book) (li : Nat) : Book := { fsmIdx := li }
+
+inductive BookEv
+  | apply (idx : Nat) (applied appended : Int)
+  | restore (li : Nat)
+  | fastOpen (li : Nat)
+deriving Repr, DecidableEq
+
+def Book.step (b : Book) : BookEv → Book
+  | .apply idx u a => b.apply idx u a
+  | .restore li => b.restore li
+  | .fastOpen li => b.fastOpen li
+
+def Book.run (b : Book) (evs : List BookEv) : Book := evs.foldl Book.step b
+
+/-- (apply time, append time) of the last entry applied one by one in this process, if any -/
+def lastApply (init : Option (Int × Int)) : List BookEv → Option (Int × Int)
+  | [] => init
+  | .apply _ u a :: rest => lastApply (some (u, a)) rest
+  | .restore _ :: rest => lastApply init rest
+  | .fastOpen _ :: rest => lastApply Option.none rest
+
 /-- the arguments `(*Store).isStaleRead` hands to `IsStaleRead` -/
 def Book.staleIn (b : Book) (now lastContact : Int) (commandCommitIndex : Nat) (freshness : Int) (strict : Bool) : StaleIn :=
   ⟨now, lastContact, b.fsmUpdate, b.appendedAt, b.fsmIdx, commandCommitIndex, freshness, strict⟩
@@ -81,7 +109,8 @@ deriving DecidableEq, Repr
 inductive Outcome
   | localRead (eff : Level)   -- served by `s.db.QueryWithContext` at effective level `eff`
   | viaLog (eff : Level)      -- went through `s.raft.Apply` (and `strongReadTerm` was stored)
-  | errPragma | errNotOpen | errCtx | errVoter
+  | errPragma | errNotOpen | errInvalidRequest | errCtx | errVoter
+  | errThrottle               -- `s.throttler.Delay(ctx)` failed (Request only)
   | errNotLeader | errNotReady | errStaleRead
   | errLin (o : LinOut)       -- any other error of waitForLinearizableRead, passed through
   | errApply                  -- any other raft.Apply error, passed through
@@ -98,6 +127,8 @@ structure Env where
   staleRead : Bool           -- `s.isStaleRead(freshness, strict)`
   lin       : LinOut         -- `s.waitForLinearizableRead(...)`
   apply     : ApplyOut       -- outcome of `s.raft.Apply` if it is reached
+  reqOk     : Bool := true   -- the request carries a statement list (`qr.Request != nil`)
+  throttleOk : Bool := true  -- `s.throttler.Delay(ctx) == nil` (Request, before the log append)
 deriving Repr, DecidableEq
 
 /-- AUTO becomes WEAK on a voter and NONE otherwise -/
@@ -123,6 +154,7 @@ def linStage (l : Level) (e : Env) : Except Outcome Level :=
 def query (lvl : Level) (e : Env) : Outcome :=
   if !e.pragmaOk then .errPragma
   else if !e.opened then .errNotOpen
+  else if !e.reqOk then .errInvalidRequest
   else if !e.ctxOk then .errCtx
   else match resolveAuto lvl e.voter with
     | Option.none => .errVoter
@@ -151,6 +183,7 @@ def requestTail (l2 : Level) (nRW : Nat) (e : Env) : Outcome :=
     else .localRead l2
   else if !e.isLeader then .errNotLeader
   else if !e.ready then .errNotReady
+  else if !e.throttleOk then .errThrottle
   else match e.apply with
     | .ok => .viaLog l2
     | .notLeader => .errNotLeader
@@ -159,6 +192,7 @@ def requestTail (l2 : Level) (nRW : Nat) (e : Env) : Outcome :=
 def request (lvl : Level) (nRW : Nat) (e : Env) : Outcome :=
   if !e.pragmaOk then .errPragma
   else if !e.opened then .errNotOpen
+  else if !e.reqOk then .errInvalidRequest
   else if !e.ctxOk then .errCtx
   else match resolveAuto lvl e.voter with
     | Option.none => .errVoter
@@ -171,6 +205,7 @@ def request (lvl : Level) (nRW : Nat) (e : Env) : Outcome :=
 def requestOld (lvl : Level) (nRW : Nat) (e : Env) : Outcome :=
   if !e.pragmaOk then .errPragma
   else if !e.opened then .errNotOpen
+  else if !e.reqOk then .errInvalidRequest
   else if !e.ctxOk then .errCtx
   else match linStage lvl e with
     | .error o => o
@@ -181,6 +216,7 @@ def requestOld (lvl : Level) (nRW : Nat) (e : Env) : Outcome :=
 `bookreset` → `ok`; `bookapply IDX appliedNs appendedNs` → `ok` (one fsmApply);
 `book` → `fsmIdx fsmUpdateNs appendedAtNs|-`;
 `bookstale now lastContact commandCommitIndex freshness strict` → `true|false`
+`querynil` / `requestnil` → outcome for a request without statement list
 `query LVL leader voter(t|f|e) ready stale readTerm strongTerm` → outcome
 `request LVL nRW leader voter ready stale readTerm strongTerm` → outcome
 (open, pragma-free, live context; a healthy cluster: VerifyLeader succeeds iff the
@@ -216,6 +252,8 @@ def outcomeStr : Outcome → String
   | .viaLog l => "vialog:" ++ levelStr l
   | .errPragma => "err:pragma"
   | .errNotOpen => "err:notopen"
+  | .errInvalidRequest => "err:invalidrequest"
+  | .errThrottle => "err:throttle"
   | .errCtx => "err:ctx"
   | .errVoter => "err:voter"
   | .errNotLeader => "err:notleader"
@@ -227,7 +265,7 @@ def outcomeStr : Outcome → String
 def healthyEnv (leader : Bool) (voter : Option Bool) (ready stale : Bool) (rt st : Nat) : Env :=
   { pragmaOk := true, opened := true, ctxOk := true, isLeader := leader, voter := voter, ready := ready,
     staleRead := stale,
-    lin := LinRead.waitLin ⟨rt, st, leader, ready, {}, leader, rt, {}⟩,
+    lin := LinRead.waitLin ⟨rt, st, leader, ready, {}, leader, rt, {}, {}⟩,
     apply := if leader then .ok else .notLeader }
 
 def step (d : DState) (line : String) : DState × String :=
@@ -253,6 +291,8 @@ def step (d : DState) (line : String) : DState × String :=
     | some now, some lc, some ci, some f, some strict =>
       (d, boolStr (isStaleRead (d.book.staleIn now lc ci f strict)))
     | _, _, _, _, _ => (d, "bad-op")
+  | ["querynil"] => (d, outcomeStr (query .none { healthyEnv true (some true) true false 1 1 with reqOk := false }))
+  | ["requestnil"] => (d, outcomeStr (request .none 0 { healthyEnv true (some true) true false 1 1 with reqOk := false }))
   | ["query", lvl, ld, v, rd, stl, rt, st] =>
     match parseLevel lvl, LinRead.parseBool ld, parseVoter v, LinRead.parseBool rd, LinRead.parseBool stl, rt.toNat?, st.toNat? with
     | some lvl, some ld, some v, some rd, some stl, some rt, some st =>
